@@ -59,6 +59,14 @@ def check(run):
     oracle_fail, all_mism = [], []
     n = 20000 if thorough else 2500
     docs = doccheck.gen_docs(rnd, n, raw=False, nan=True)
+    # documents nested as deep as the deserializer's default limit and beyond (the limit used for reading back is 50)
+    for depth in (9, 10, 11, 12, 20, 49):
+        for kind in range(3):
+            v = ("i", 42)
+            for lvl in range(depth):
+                arr = kind == 0 or (kind == 2 and lvl % 2 == 0)
+                v = [v, None] if arr else ("o", [(b"k", v), (b"z", ("s", b"x"))])
+            docs.append(v)
     dumps = [dump(d) for d in docs]
     # --- JSON round trip
     l1 = [f"S 0 {d}" for d in dumps]
